@@ -114,6 +114,53 @@ mod proofs {
         std::mem::forget(hpack);
     }
 
+    // RFC 9113 §6.10 / §4.3: "any frame other than CONTINUATION, on any stream, while a field block is being received
+    // MUST be treated as a connection error of type PROTOCOL_ERROR" — that includes frames of UNKNOWN type (they are only
+    // ignored outside a field block).  Pre-state: a HEADERS frame without END_HEADERS has been received (`partial` is
+    // Some); input: a frame head with ANY type byte other than 9, any flags, any stream word, and an 8-byte payload.
+    // The decision is taken before the payload is looked at, so the harness is loop-free over the full head domain.
+    // The type byte is enumerated CONCRETELY: with a symbolic type CBMC encodes every loader although the decision is
+    // taken before the payload is looked at (150 s timeout).  Cases: the ten defined types except CONTINUATION (0..=8)
+    // and the unknown type bytes 10, 0x42, 0xff; `frame_kind_new_unknown` below proves that EVERY byte > 9 is mapped to
+    // the same `Kind::Unknown` as those three, which is all decode_frame ever looks at.  Flags, stream word and payload
+    // are symbolic.
+    // @harness id=decode_frame_inside_header_block props=C09,C04 kind=complete tier=quick timeout=400 fn=decode_frame
+    #[kani::proof]
+    #[kani::unwind(13)]
+    fn decode_frame_inside_header_block() {
+        let stream_word: u32 = kani::any();
+        let flags: u8 = kani::any();
+        let payload: [u8; 8] = kani::any();
+        let mut hpack = hpack::Decoder::new(4096);
+        let kinds: [u8; 12] = [0, 1, 2, 3, 4, 5, 6, 7, 8, 10, 0x42, 0xff];
+        let mut i = 0;
+        while i < 12 {
+            let h = crate::verif_kani::mk_headers(crate::frame::StreamId::from(1), false, false);
+            let mut partial: Option<Partial> =
+                Some(Partial { frame: Continuable::Headers(h), buf: BytesMut::new(), continuation_frames_count: 0 });
+            let r = decode_frame(&mut hpack, 16 << 20, 5, &mut partial, frame_bytes(kinds[i], flags, stream_word, &payload));
+            assert!(
+                matches!(&r, Err(e) if { let (k, _, code, who, _) = sig(e); k == 1 && code == 1 && who == 1 }),
+                "framed_read.decode_frame.non_continuation_inside_header_block_is_connection_error_protocol_error"
+            );
+            std::mem::forget(r);
+            std::mem::forget(partial);
+            i += 1;
+        }
+        kani::cover!((stream_word & 0x7fff_ffff) == 3, "cover.frame_on_other_stream_inside_header_block");
+        std::mem::forget(hpack);
+    }
+
+    // @harness id=frame_kind_new_unknown props=C09,C04 kind=complete tier=quick fn=Kind::new
+    #[kani::proof]
+    fn frame_kind_new_unknown() {
+        let b: u8 = kani::any();
+        let k = Kind::new(b);
+        assert!((b > 9) == (k == Kind::Unknown), "frame.kind.new.every_byte_above_9_is_unknown_and_no_other");
+        assert!((b == 9) == (k == Kind::Continuation), "frame.kind.new.only_9_is_continuation");
+        kani::cover!(b == 200, "cover.unknown");
+    }
+
     // ---- calc_max_continuation_frames (C18), from the hpack work package
 
 
